@@ -332,12 +332,23 @@ pub struct SpanInfo {
     pub loc: Option<(usize, usize)>,
 }
 
+#[derive(Clone, Debug, PartialEq, Eq)]
+pub struct BankInfo {
+    pub unit: usize,
+    pub addr: num_bigint::BigInt,
+    pub size: Option<usize>,
+    pub outp: Option<usize>,
+    pub fill: bool,
+}
+
 #[derive(Clone, Debug)]
 pub struct AsmOk {
     pub bits: Vec<bool>,
     pub spans: Vec<SpanInfo>,
     pub symbols: String,
     pub iterations: usize,
+    /// bank definitions as the assembler understood them (index 0 = the default bank)
+    pub banks: Vec<BankInfo>,
 }
 
 #[derive(Debug)]
@@ -447,6 +458,13 @@ pub fn extract_ok(fs: &MemFs, res: &asm::AssemblyResult) -> Option<AsmOk> {
             .collect(),
         symbols,
         iterations: res.iterations_taken.unwrap_or(0),
+        banks: defs
+            .bankdefs
+            .defs
+            .iter()
+            .flatten()
+            .map(|b| BankInfo { unit: b.addr_unit, addr: bigint_of(&b.addr_start), size: b.size, outp: b.output_offset, fill: b.fill })
+            .collect(),
     })
 }
 
